@@ -292,7 +292,7 @@ def run(ctx):
         c["evlist"] = [(tuple(tasks_util._tup(a)), v) for a, v in c["evlist"]]
         cases = [c]
     else:
-        n = ctx.budget(160, 5000)
+        n = ctx.budget(160, 4000)
         cases = [make_case(spine.gen_program(rng, evidence=False), rng) for _ in range(n)]
     sems = semcheck.spec_batch(drv, [top_program(c) for c in cases])
     results = pmap(work, cases, chunksize=2)
